@@ -12,6 +12,9 @@ REGISTRY = {
     'C06': ('verif.p_mc', 'run_c06'),
     'C07': ('verif.p_mc', 'run_c07'),
     'C12': ('verif.p_graph', 'run_c12'),
+    'C16': ('verif.p_bdd', 'run_c16'),
+    'C17': ('verif.p_bdd', 'run_c17'),
+    'C18': ('verif.p_bdd', 'run_c18'),
     'C19': ('verif.p_mc', 'run_c19'),
     'C14': ('verif.p_kripke', 'run_c14'),
     'C15': ('verif.p_mc', 'run_c15'),
